@@ -6,7 +6,7 @@
    (`unique_reqids`; the property's "connection-unique RequestIds", taken globally for simplicity). *)
 From Coq Require Import List NArith ZArith Bool Lia.
 From Slock Require Import Engine.Types Engine.Queues Engine.Timers Engine.Engine Engine.Engine2
-  Engine.ReplyBase Engine.ReplyLocal Engine.ReplyInv Engine.ReplyThm.
+  Engine.ReplyBase Engine.ReplyLocal Engine.ReplyInv Engine.ReplyThm Engine.ReplyLive Engine.ReplyCmpl Engine.ReplyCmpl2.
 Import ListNotations.
 Open Scope N_scope.
 
@@ -125,3 +125,50 @@ Example C03_expried_after_grant_nonvacuous :
   rinfos (concat (snd (run (init_db 1000000 1) c03_demo)))
   = [(1, 1, R_SUCCED); (3, 3, R_TIMEOUT); (1, 4, R_SUCCED); (2, 2, R_SUCCED)] ++ (2, 2, R_EXPRIED) :: [].
 Proof. vm_compute. reflexivity. Qed.
+
+(* T4 (completeness).  In every reachable state every request of the history has a terminal reply, or a lock record
+   carrying its RequestId and connection is in the store and still awaits its reply (l_timeouted = false, no ack
+   pending): nothing is lost.  [The timer theorems (C05) say such a record is answered by the timeout sweep at the latest.] *)
+Theorem C03_reply_or_waiting : forall t0 a acts s evs conn c,
+  Forall core_action acts -> unique_reqids acts -> run (init_db t0 a) acts = (s, evs) ->
+  In (AReq conn c) acts ->
+  has_term (c_req c) (rinfos (concat evs))
+  \/ exists r l, aget (store s) r = Some l /\ c_req (l_cmd l) = c_req c /\ l_conn l = conn
+                 /\ l_timeouted l = false /\ l_ack l = 255.
+Proof. exact reply_or_waiting. Qed.
+Goal True. idtac "ASSUMPTIONS-OF C03_reply_or_waiting". Abort.
+Print Assumptions C03_reply_or_waiting.
+Example C03_reply_or_waiting_nonvacuous :
+  let acts := [AReq 1 (c03_L 1 101 7 5 10); AReq 2 (c03_L 2 102 7 5 10)] in
+  Forall core_action acts /\ unique_reqids acts
+  /\ rinfos (concat (snd (run (init_db 1000000 1) acts))) = [(1, 1, R_SUCCED)]
+  /\ option_map (fun l => (c_req (l_cmd l), l_conn l, l_timeouted l, l_ack l))
+       (aget (store (fst (run (init_db 1000000 1) acts))) 2) = Some (2, 2, false, 255).
+Proof.
+  split; [|split; [|split]].
+  - repeat constructor; cbn; lia.
+  - unfold unique_reqids. vm_compute. repeat constructor; cbn; intuition discriminate.
+  - vm_compute. reflexivity.
+  - vm_compute. reflexivity.
+Qed.
+
+(* ... hence at a drained state (decidable: no record of the store awaits a reply) every request of the history has
+   exactly one terminal reply *)
+Theorem C03_exactly_one_when_drained : forall t0 a acts s evs conn c,
+  Forall core_action acts -> unique_reqids acts -> run (init_db t0 a) acts = (s, evs) ->
+  drained s = true -> In (AReq conn c) acts ->
+  length (filter (is_term (c_req c)) (rinfos (concat evs))) = 1%nat.
+Proof. exact reply_exactly_one_when_drained. Qed.
+Goal True. idtac "ASSUMPTIONS-OF C03_exactly_one_when_drained". Abort.
+Print Assumptions C03_exactly_one_when_drained.
+Example C03_exactly_one_when_drained_nonvacuous :
+  Forall core_action c03_demo /\ unique_reqids c03_demo
+  /\ drained (fst (run (init_db 1000000 1) c03_demo)) = true
+  /\ drained (fst (run (init_db 1000000 1) [AReq 1 (c03_L 1 101 7 5 10); AReq 2 (c03_L 2 102 7 5 10)])) = false.
+Proof.
+  split; [|split; [|split]].
+  - repeat constructor; cbn; lia.
+  - unfold unique_reqids. vm_compute. repeat constructor; cbn; intuition discriminate.
+  - vm_compute. reflexivity.
+  - vm_compute. reflexivity.
+Qed.
